@@ -188,6 +188,8 @@ class Ctx:
             known_lines.append("KNOWN-FINDING: property=%s %s (observed %d times; signature=%s)" % (self.pid, e.get("what", ""), n, sig))
         cov["known_findings_observed"] = {sig: n for sig, (e, n) in self.known_hits.items()}
         cov["known_findings_full_signatures"] = self.known_full
+        if not self.violations and self.inconclusive_reason is None and self.counters.get("violations_dropped_over_400"):
+            self.inconclusive_reason = "a worker reported more than 400 distinct violation records; the excess was not classified"
         if not self.violations and self.inconclusive_reason is None:
             if nd < self.min_nontrivial:
                 self.inconclusive_reason = "only %d distinct non-trivial cases (minimum %d)" % (nd, self.min_nontrivial)
@@ -240,6 +242,7 @@ class Part:
         self.samples = []
         self.counters = {}
         self.violations = []
+        self._nsig = {}
 
     def case(self, key=None, nontrivial=True, sample=None, n=1):
         self.evaluations += n
@@ -258,10 +261,14 @@ class Part:
             self.counters[name] = v
 
     def violation(self, signature, detail):
-        if len(self.violations) < 10:
+        # keep the first occurrences of EVERY distinct signature (a worker cannot tell known findings from new ones, so a cap on the
+        # total would let many hits of a known finding hide a later new violation); only repeats of a signature are dropped
+        n = self._nsig.get(signature, 0)
+        self._nsig[signature] = n + 1
+        if n < 3 and len(self.violations) < 400:
             self.violations.append({"signature": signature, "detail": _jsonable(detail)})
         else:
-            self.count("violations_dropped")
+            self.count("violation_repeats_not_stored" if n >= 3 else "violations_dropped_over_400")
 
     def result(self):
         return {"evaluations": self.evaluations, "distinct": sorted(self.distinct),
